@@ -4,7 +4,8 @@ import hashlib
 from hypothesis import strategies as st
 
 from vf import gen
-from vf.core import Fails, Target, attempt, bx, hx, raised
+from vf.core import Fails, Target, attempt, bx, hx, raised, seq
+from vf.core import pair as pair_of
 from vf.env import rng, smallcurve
 from vf.ref import der, ec
 
@@ -118,7 +119,11 @@ def check_sign(case):
     if raised(res):
         f.add(f"sign/raises-{res.kind}/{ztag}", res)
         return cls, f
-    r, s = res
+    rs_ = pair_of(res)
+    if rs_ is None:
+        f.add(f"range/r-s-not-in-[1,n-1]/{ztag}", repr(res)[:120])
+        return cls, f
+    r, s = rs_
     if any(c[2] == 0 for c in stub.calls):
         cls.append("nt:draw-zero")
     if len(stub.calls) > 1:
@@ -147,7 +152,8 @@ def check_sign(case):
             b = stub.calls[0][1] if stub.calls else N
             independent = not stub.calls or not stub2.calls or all(x != y and (x + y) % b != 0 and (x + y + 2) % (b + 1) != 0 for x in d1 for y in d2)
             if independent:
-                f.expect(res2[0] != r, f"nonce/r-shared-across-{pair['differs']}", f"r={r:#x}")
+                rs2_ = pair_of(res2)
+                f.expect(rs2_ is not None and rs2_[0] != r, f"nonce/r-shared-across-{pair['differs']}", f"r={r:#x}" if isinstance(r, int) else f"r={r!r}")
     return cls, f
 
 
@@ -199,9 +205,13 @@ def check_sigapi(case):
         f.add(f"sig/raises-{sig.kind}/{mode}", sig)
         return cls, f
     has_flag = flag is not None or preimage
+    if not isinstance(sig, (bytes, bytearray)):
+        f.add("der/not-strict-bip66/unparseable", repr(sig)[:120])
+        return cls, f
     dersig = sig[:-1] if has_flag else sig
     if has_flag:
-        f.expect(sig[-1] == (eff_flag & 0xFF), f"sighash-byte/ne-requested/{mode}", f"{sig[-1]:#x} vs {eff_flag:#x}")
+        last = sig[-1] if sig else None
+        f.expect(last == (eff_flag & 0xFF), f"sighash-byte/ne-requested/{mode}", f"{last:#x} vs {eff_flag:#x}" if last is not None else f"(empty) vs {eff_flag:#x}")
     rs = der.decode_strict(dersig)
     lrs = der.decode_lenient(dersig)
     shape = "+".join(sorted(set(c[3:] for c in (_len_class(lrs[0], "r") + _len_class(lrs[1], "s"))))) if lrs else "unparseable"
@@ -209,7 +219,7 @@ def check_sigapi(case):
         return cls, f
     r2, s2 = rs
     dd = attempt(bits.utils.der_decode_sig, dersig)
-    f.expect(not raised(dd) and tuple(dd) == (r2, s2), f"der/lib-decode-ne-values/{shape or 'full'}", repr(dd)[:120])
+    f.expect(not raised(dd) and seq(dd) == (r2, s2), f"der/lib-decode-ne-values/{shape or 'full'}", repr(dd)[:120])
     if _check_sig_values(f, cls, d, z, r2, s2, mode) and has_flag:
         comp = bool(case.get("comp"))
         pk = ec.sec1_encode(ec.pub(d), comp)
@@ -229,7 +239,7 @@ def check_der(case):
     got = attempt(U.der_encode_sig, r, s)
     if f.expect(not raised(got) and got == want and der.is_strict_der(got), f"der-encode/ne-strict/{shape}", repr(got)[:160]):
         back = attempt(U.der_decode_sig, got)
-        f.expect(not raised(back) and tuple(back) == (r, s), f"der-decode/ne-values/{shape}", repr(back)[:120])
+        f.expect(not raised(back) and seq(back) == (r, s), f"der-decode/ne-values/{shape}", repr(back)[:120])
     return cls, f
 
 
@@ -273,8 +283,12 @@ def check_small(case):
                 if raised(res):
                     f.add(f"small/sign-raises-{res.kind}", f"p={p} d={d} z={z} k={k}: {res}")
                     return cls, f
-                r, s = res
-                ok = 1 <= r < n and 1 <= s < n and s <= n // 2 and ec.ecdsa_verify(pt, z, r, s, n, g, p)
+                rs_ = pair_of(res)
+                if rs_ is None:
+                    f.add("small/signature-invalid-or-non-canonical", f"p={p} d={d} z={z} k={k}: {res!r}"[:200])
+                    return cls, f
+                r, s = rs_
+                ok = isinstance(r, int) and isinstance(s, int) and 1 <= r < n and 1 <= s < n and s <= n // 2 and ec.ecdsa_verify(pt, z, r, s, n, g, p)
                 if not ok:
                     f.add("small/signature-invalid-or-non-canonical", f"p={p} d={d} z={z} k={k}: r={r} s={s}")
                     return cls, f
